@@ -234,6 +234,7 @@ def replay(c):
 
 
 def run(rep):
+    tok.VALIDATE[0] = replay_fn
     b = BOUNDS[rep.tier]
     L = loader.load(("exceptions", "io", "signal", "util"))
     rep.hashes = L.hashes
